@@ -309,6 +309,7 @@ struct Cfg
 {
   std::string mode{"bounded"}, itype{"u8"};
   size_t cap{8}, percent{5}, initial{8}, maxcap{32};
+  size_t rawcap{0}; // bounded: the value handed to the constructor when it is not a power of two (cap = what it rounds up to)
   bool preset{false};
   std::vector<POp> ops;
   bool probe{true};
@@ -340,7 +341,9 @@ struct BoundedHarness
 
   void setup()
   {
-    q = new QT(static_cast<IT>(g_cfg.cap), quill::HugePagesPolicy::Never, static_cast<IT>(g_cfg.percent));
+    q = new QT(static_cast<IT>(g_cfg.rawcap ? g_cfg.rawcap : g_cfg.cap), quill::HugePagesPolicy::Never, static_cast<IT>(g_cfg.percent));
+    if (static_cast<size_t>(q->capacity()) != g_cfg.cap)
+      fail("capacity-not-rounded-to-power-of-two", "constructed with " + std::to_string(g_cfg.rawcap ? g_cfg.rawcap : g_cfg.cap) + ", capacity() is " + std::to_string(q->capacity()) + ", expected " + std::to_string(g_cfg.cap));
     if (g_cfg.preset)
     {
       // carry the free-running position counters through integer wrap-around
@@ -1478,7 +1481,7 @@ static std::string cfg_string()
   std::string ops;
   for (auto const& o : g_cfg.ops) ops += (ops.empty() ? "" : ",") + std::string(1, o.kind) + std::to_string(o.n);
   if (g_cfg.mode == "bounded")
-    return "mode=bounded itype=" + g_cfg.itype + " cap=" + std::to_string(g_cfg.cap) + " percent=" + std::to_string(g_cfg.percent) + " preset=" + std::to_string(g_cfg.preset) + " ops=" + ops;
+    return "mode=bounded itype=" + g_cfg.itype + " cap=" + std::to_string(g_cfg.cap) + (g_cfg.rawcap ? " rawcap=" + std::to_string(g_cfg.rawcap) : std::string()) + " percent=" + std::to_string(g_cfg.percent) + " preset=" + std::to_string(g_cfg.preset) + " ops=" + ops;
   if (g_cfg.mode == "counter") return "mode=counter ops=" + ops;
   if (g_cfg.mode.rfind("sys", 0) == 0)
   {
@@ -1634,6 +1637,7 @@ int main(int argc, char** argv)
   g_cfg.mode = a.get("--mode", "bounded");
   g_cfg.itype = a.get("--itype", "u8");
   g_cfg.cap = static_cast<size_t>(a.geti("--cap", 8));
+  g_cfg.rawcap = static_cast<size_t>(a.geti("--rawcap", 0));
   g_cfg.percent = static_cast<size_t>(a.geti("--percent", 5));
   g_cfg.preset = a.geti("--preset", 0) != 0;
   g_cfg.initial = static_cast<size_t>(a.geti("--initial", 8));
